@@ -52,6 +52,7 @@ class Result:
         self.total_ms = 0
         self.cmd = ""
         self.fn_times = {}
+        self.rejections = []      # rustc/VIR errors that are not proof failures: dict(message, spans)
 
 
 def run(asm, out_path, rlimit=60, extra_args=(), threads=8):
@@ -104,6 +105,7 @@ def run(asm, out_path, rlimit=60, extra_args=(), threads=8):
         if not any(msg.startswith(s) or s in msg for s in SEMANTIC) or d.get("code"):
             res.undecided.append("verus rejected the unit (not a proof failure): %s @ %s" % (
                 msg.split("\n")[0], ", ".join("%s" % sp.get("line_start") for sp in spans)))
+            res.rejections.append(dict(message=msg, spans=spans))
             continue
         res.failures.append(_attribute(asm, msg, spans, rendered))
     return res
